@@ -1,4 +1,5 @@
 // simworker: in-process loop over run indices (no fork per run), one flushed result line per run.
+#include <cmath>
 #include <cstdio>
 #include <cstdlib>
 #include <cstring>
@@ -39,7 +40,7 @@ static std::string outcome_json(const RunOutcome &o, const std::string &casepath
     }
     s << "],\"stats\":{";
     bool first = true;
-    for (auto &kv : o.stats) { if (!first) s << ","; first = false; s << json_escape(kv.first) << ":" << kv.second; }
+    for (auto &kv : o.stats) { if (!first) s << ","; first = false; double v = kv.second; if (!(v == v)) v = -1; else if (v > 1e300) v = 1e300; else if (v < -1e300) v = -1e300; s << json_escape(kv.first) << ":" << v; }
     s << "}";
     if (!o.sample.empty()) s << ",\"sample\":" << o.sample;
     if (!casepath.empty()) s << ",\"case\":" << json_escape(casepath);
